@@ -63,11 +63,35 @@ func runC15(e *Env) {
 func c15FindBound(e *Env) {
 	rule := "C15.R1"
 	n := 0
+	// Find, and the unexported search it forwards to (when Find became a wrapper that only converts the result): which result of
+	// each is the exclusive upper bound
+	bound := map[*ssa.Function]int{}
+	if find := e.fn(rule, "message.Options.Find"); find != nil {
+		bound[find] = 1
+		for _, ret := range core.ReturnsOf(find) {
+			if len(ret.Results) < 2 {
+				continue
+			}
+			if ex, ok := ret.Results[1].(*ssa.Extract); ok {
+				if c, isC := ex.Tuple.(*ssa.Call); isC {
+					if g := core.StaticFn(c); g != nil && g.Pkg == find.Pkg && g != find {
+						bound[g] = ex.Index
+					}
+				}
+			}
+		}
+	}
 	for _, f := range e.P.SrcFuncs(false) {
-		for _, c := range core.CallsNamed(f, "message.Options.Find") {
+		if _, isFinder := bound[f]; isFinder && core.FnName(f) == "message.Options.Find" && len(bound) > 1 {
+			continue // the wrapper itself only forwards the bound
+		}
+		for _, c := range core.Calls(f, func(_ string, ci ssa.CallInstruction) bool {
+			_, ok := bound[core.StaticFn(ci)]
+			return ok
+		}) {
 			var last *ssa.Extract
 			for _, ref := range core.Referrers(c.(ssa.Value)) {
-				if ex, ok := ref.(*ssa.Extract); ok && ex.Index == 1 {
+				if ex, ok := ref.(*ssa.Extract); ok && ex.Index == bound[core.StaticFn(c)] {
 					last = ex
 				}
 			}
@@ -249,7 +273,9 @@ func c15ValueBuffer(e *Env) {
 	for _, f := range methodsOf(e, rule, "message/pool.Message") {
 		name := core.FnName(f)
 		calls := core.Calls(f, func(n string, _ ssa.CallInstruction) bool { return editors[n] })
-		direct := core.Calls(f, func(n string, _ ssa.CallInstruction) bool { return n == "message.Options.Set" || n == "message.Options.Add" })
+		direct := core.Calls(f, func(n string, _ ssa.CallInstruction) bool {
+			return n == "message.Options.Set" || n == "message.Options.Add"
+		})
 		if len(calls) == 0 && len(direct) == 0 {
 			// still: nothing may append to / re-slice an option's value
 			c15NoValueAppend(e, f)
